@@ -358,6 +358,44 @@ LEXERS = [
 ]
 
 
+PUNCT = "+-.\\()[]^"                 # punctuation with a meaning somewhere in the syntax
+PUNCT_SIGMA = "+,-.\\()[]^0A"       # + witnesses that must stay outside: ',', a digit, an upper-case letter
+
+
+def escape_cases(ctx):
+    """Character classes whose range start / end / both are written as escapes, escaped single members, and
+    escapes of every metacharacter outside a class; the alphabet contains the punctuation and witnesses."""
+    needs = "][\\^-"
+    out = []
+
+    def item(c, esc):
+        return ("\\" if esc else "") + c
+
+    for lo, hi in itertools.combinations(sorted(PUNCT), 2):
+        cs = "".join(chr(c) for c in range(ord(lo), ord(hi) + 1))
+        for es, ee in itertools.product((False, True), repeat=2):
+            if (not es and lo in needs) or (not ee and hi in needs):
+                continue
+            rng_leaf = leaf("[%s-%s]" % (item(lo, es), item(hi, ee)), cs)
+            out.append((rng_leaf, PUNCT_SIGMA, 1))
+            if es != ee or ctx.tier == "thorough":
+                out.append((cat("a", st(rng_leaf), leaf("[x%s-%s0]" % (item(lo, es), item(hi, ee)), cs + "x0")), "a" + PUNCT_SIGMA, 2))
+    for c in PUNCT:
+        out.append((leaf("[\\%s]" % c, c), PUNCT_SIGMA, 1))
+        out.append((leaf("[A\\%s0]" % c, "A0" + c), PUNCT_SIGMA, 1))
+        out.append((cat("A", "\\" + c, op("0")), PUNCT_SIGMA, 3 if ctx.tier == "thorough" else 2))
+    meta = "|()[].*+?\\^${}"
+    for c in meta:
+        out.append((leaf("\\" + c), meta + "a", 1))
+    out.append((leaf("[" + "".join("\\" + c for c in meta) + "]", meta), meta + "a0", 1))
+    out.append((leaf("[|().*+?${}]", "|().*+?${}"), meta + "a0", 1))
+    out.append((cat(*["\\" + c for c in meta]), meta, 0))          # only the empty string is in reach: must be rejected
+    out.append((alt(*["\\" + c for c in meta]), meta + "a", 1))
+    out.append((pl(leaf("[+-\\-]", "+,-")), PUNCT_SIGMA, 2))
+    out.append((alt(leaf("[(-\\)]", "()"), "x"), "x" + PUNCT_SIGMA, 1))
+    return out
+
+
 def naive(t):
     """Print without any parentheses (concatenation = juxtaposition, postfix operators, '|')."""
     if t[0] == "leaf":
@@ -427,6 +465,8 @@ def accept_cases(ctx):
     for t, sigma, k in FIXED:
         cases.append(("fixed", t, show(t), codes(sigma), k))
     cases.extend(collide_cases(ctx))
+    for t, sigma, k in escape_cases(ctx):
+        cases.append(("escape", t, show(t), codes(sigma), k))
     return cases
 
 
@@ -439,7 +479,8 @@ class Engine:
                  "AST of size<=%s over {a,b,.} and every string over {a,b} of length<=%s; Parse(Show(r))=r for every AST of "
                  "size<=%d over 6 leaves (incl. escapes, a class). "
                  "E: every AST of size<=%d over {a,b,.} (+ seeded samples up to size %d, + size<=3 over class/escape leaves, "
-                 "+ %d fixed expressions, + the directed family r1|r2, r2|r1, (r1|r2)*, (r1|r2)a for pairs of different ASTs "
+                 "+ %d fixed expressions, + classes whose range start / end / both are escapes, escaped members and escapes of "
+                 "every metacharacter over a punctuation alphabet with witnesses, + the directed family r1|r2, r2|r1, (r1|r2)*, (r1|r2)a for pairs of different ASTs "
                  "over {a,b} whose unparenthesised prints coincide, e.g. (ab)* / ab*: all pairs of size<=4 (thorough <=5) "
                  "and a seeded sample of larger ones) printed with minimal parentheses, compiled by ppci regex.compile (kind text) and "
                  "built through the combinator API (kind ast); the set of strings of length<=n accepted by walking the "
@@ -491,7 +532,7 @@ class Engine:
         recs = []
         for fam, t, text, sigma, n in accept_cases(ctx):
             tag = shape(t)
-            budget = MAX_BUDGET if fam in ("fixed", "collide") else call_budget(nodes(t))
+            budget = MAX_BUDGET if fam in ("fixed", "collide", "escape") else call_budget(nodes(t))
             out, _ = observe_accept(text, sigma, n, budget)
             recs.append({"kind": "text", "must": True, "re": codes(text), "sigma": sigma, "n": n, "out": out,
                          "key": "C31:text:shape=%s:%s:re=%s" % (tag, outcome_tag(out), text), "retext": text, "fam": fam,
